@@ -34,7 +34,7 @@ use trippy_tui::verif::{
     LogSpanEvents, Mode, MultipathStrategyConfig, ProtocolConfig, TrippyConfig, TuiColumns,
 };
 
-const PID: u16 = 4242;
+pub const PID: u16 = 4242;
 
 // ------------------------------------------------------------------------------------------------
 // (i) the builder
@@ -454,7 +454,7 @@ impl Default for Sections {
     }
 }
 
-fn privilege() -> Privilege {
+pub fn privilege() -> Privilege {
     // has privileges, does not need them: both privilege modes pass `validate_privilege`
     Privilege::new(true, false)
 }
@@ -660,6 +660,23 @@ fn options() -> Vec<Opt> {
         flag!("tui_preserve_screen", tui, tui_preserve_screen, |c| dbg(c.tui_preserve_screen), s("true"), s("false")),
         plain!("tui_refresh_rate", tui, tui_refresh_rate, ms(200), ms(300), |c| dbg(c.tui_refresh_rate), s("200ms"), s("300ms"), s("100ms")),
         plain!("tui_privacy_max_ttl", tui, tui_privacy_max_ttl, 3u8, 4u8, |c| dbg(c.tui_privacy_max_ttl), s("Some(3)"), s("Some(4)"), s("None")),
+        // the boundary: a privacy TTL of 0 is a value of its own (hide the source, hide no hop), not "unset"
+        Opt {
+            name: "tui_privacy_max_ttl=0",
+            cli: |a: &mut Args| a.tui_privacy_max_ttl = Some(0),
+            file: |s: &mut Sections, _o: bool| s.tui.tui_privacy_max_ttl = Some(1),
+            get: |c: &TrippyConfig| dbg(c.tui_privacy_max_ttl),
+            want_cli: s("Some(0)"), want_file: s("Some(1)"), want_default: s("None"),
+            ctx: None, touches: &["tui_privacy_max_ttl"], flag: false,
+        },
+        Opt {
+            name: "tui_privacy_max_ttl=0 (file)",
+            cli: |a: &mut Args| a.tui_privacy_max_ttl = Some(2),
+            file: |s: &mut Sections, _o: bool| s.tui.tui_privacy_max_ttl = Some(0),
+            get: |c: &TrippyConfig| dbg(c.tui_privacy_max_ttl),
+            want_cli: s("Some(2)"), want_file: s("Some(0)"), want_default: s("None"),
+            ctx: None, touches: &["tui_privacy_max_ttl", "tui_privacy_max_ttl=0"], flag: false,
+        },
         plain!("tui_address_mode", tui, tui_address_mode, AddressMode::Ip, AddressMode::Both, |c| dbg(c.tui_address_mode), s("Ip"), s("Both"), s("Host")),
         plain!("tui_as_mode", tui, tui_as_mode, AsMode::Prefix, AsMode::Name, |c| dbg(c.tui_as_mode), s("Prefix"), s("Name"), s("Asn")),
         plain!("tui_custom_columns", tui, tui_custom_columns, String::from("hol"), String::from("hols"), |c| dbg(&c.tui_custom_columns), columns("hol"), columns("hols"), columns("holsravbwdt")),
@@ -797,7 +814,7 @@ fn precedence(run: &mut Run, rng: &mut Rng, thorough: bool) {
         args.udp = true;
         args.geoip_mmdb_file = Some(String::from("ctx.mmdb"));
         for o in &opts {
-            if skip.contains(&o.name) || o.name == "geoip_mmdb_file" { continue; }
+            if skip.contains(&o.name) || o.name == "geoip_mmdb_file" || o.name.contains('=') { continue; }
             if cli_all { (o.cli)(&mut args); }
             if file_all { (o.file)(&mut secs, cli_all); }
         }
@@ -806,7 +823,7 @@ fn precedence(run: &mut Run, rng: &mut Rng, thorough: bool) {
             Ok(Err(e)) => run.fail("c16-precedence", format!("all options cli={cli_all} file={file_all} rejected: {e}")),
             Ok(Ok(cfg)) => {
                 for o in &opts {
-                    if skip.contains(&o.name) || o.name == "geoip_mmdb_file" { continue; }
+                    if skip.contains(&o.name) || o.name == "geoip_mmdb_file" || o.name.contains('=') { continue; }
                     let st = match (cli_all, file_all) { (true, true) => St::Both, (true, false) => St::Cli, (false, true) => St::File, _ => St::Absent };
                     let got = (o.get)(&cfg);
                     if got != expected(o, st) {
